@@ -929,6 +929,18 @@ pub fn run(ctx: &mut Ctx, dom: &str, a: &[Arg]) {
                 }
             }
         }
+        "mbimis" => {
+            let g = Guarded::new(a[1].b(), a[0].u(), ctx.place_end);
+            let r = guard(|| unsafe { BootInformation::load(g.ptr.cast::<BootInformationHeader>()) });
+            ctx.ln(
+                "load",
+                match r {
+                    Err(()) => "PANIC".to_string(),
+                    Ok(Err(e)) => load_err(e),
+                    Ok(Ok(_)) => "VAL ".to_string(),
+                },
+            );
+        }
         "mbinull" => {
             let r = guard(|| unsafe { BootInformation::load(core::ptr::null()) });
             ctx.ln(
